@@ -405,6 +405,19 @@ def cxPower (peak : Bool) (r2 : Rat) (N : Net String GQ) (x : List GQ) (id : Str
   let i ← cxGet peak r2 N x .current id
   pure (if peak then GQ.smulR (1 / 2) v * GQ.conj i else v * GQ.conj i)
 
+/-! ### solution.py : identifier validation of the time- and frequency-domain getters
+
+hand-written copies of `_require_component` / `_require_node`; `harness/extract_solution.py` compares the source text of the two
+helpers verbatim with the text these definitions were written from, and refuses any other shape -/
+
+/-- `_require_component(circuit, id)`: the id of a non-ground component, else `KeyError` -/
+def requireComponent (cs : List Component) (id : String) : Except Err Unit :=
+  if id ∈ (cs.filter (·.kind ≠ "ground")).map (·.id) then .ok () else .error .keyError
+
+/-- `_require_node(circuit, id)`: a terminal of some component, else `KeyError` -/
+def requireNode (cs : List Component) (n : String) : Except Err Unit :=
+  if n ∈ cs.flatMap (·.nodes) then .ok () else .error .keyError
+
 /-! ### dump_load.py : generate_component / undictify_circuit -/
 
 /-- one entry of a circuit description (`None` = key absent) -/
